@@ -18,7 +18,8 @@ import threading
 import numpy as np
 
 from .. import fem
-from ..core import guarded, MachineryError
+from ..core import MachineryError
+from ..fem import guarded
 
 RULE = ('scenario = one basis + one polynomial integrand + one linearisation point, or one helper call on a batch of '
         'integer tensors; distinct = distinct (mesh kind, basis kind, element, integrand, point) / (helper, shape, '
